@@ -2795,6 +2795,15 @@ def _clip_power_of_two(x_abs,
   return x_clipped
 
 
+def _max_value_to_str(max_value):
+  """Prints max_value of the po2 quantizers so that it parses back unchanged."""
+  if max_value is None:
+    return "None"
+  if float(max_value) == int(max_value):
+    return str(int(max_value))
+  return str(max_value)
+
+
 def _need_exponent_sign_bit_check(max_value):
   """Checks whether the sign bit of exponent is needed.
 
@@ -2904,7 +2913,7 @@ class quantized_po2(base_quantizer.BaseQuantizer):  # pylint: disable=invalid-na
   def __str__(self):
     flags = [str(self.bits)]
     if self.max_value is not None or self.use_stochastic_rounding:
-      flags.append(str(int(self.max_value)))
+      flags.append(_max_value_to_str(self.max_value))
     if self.use_stochastic_rounding:
       flags.append(str(int(self.use_stochastic_rounding)))
     if self.quadratic_approximation:
@@ -3048,10 +3057,13 @@ class quantized_relu_po2(base_quantizer.BaseQuantizer):  # pylint: disable=inval
     self.use_variables = use_variables
 
   def __str__(self):
+    # Arguments are printed positionally, so every argument that precedes a
+    # printed one has to be printed too.
     flags = [str(self.bits)]
-    if self.max_value is not None or self.use_stochastic_rounding:
-      flags.append(str(int(self.max_value)))
-    if self.negative_slope:
+    if (self.max_value is not None or self.negative_slope or
+        self.use_stochastic_rounding):
+      flags.append(_max_value_to_str(self.max_value))
+    if self.negative_slope or self.use_stochastic_rounding:
       flags.append(str(self.negative_slope))
     if self.use_stochastic_rounding:
       flags.append(str(int(self.use_stochastic_rounding)))
